@@ -15,7 +15,7 @@ SHRINK_PREFIX = 1
 
 RULE = ("one case = (base?, route table, path). Route tables: 27 fixed tables (upstream's own test tables, one "
         "shape per segment kind / nesting / optional placement) x EVERY path over {/, a, b, e-acute} that starts "
-        "with '/' up to 6 (quick) / 7 (thorough) characters, plus PRNG-drawn tables (VERIF_SEED; static/param/"
+        "with '/' up to 6 (quick) / 7 (thorough; 8 for the first eight tables) characters, plus PRNG-drawn tables (VERIF_SEED; static/param/"
         "optional/wildcard/unit segments, tuples of arity 1-6 nested up to depth 2, nested routes to depth 3 with "
         "up to 4 siblings, with and without base) x paths built from the table's own flat routes with parameter "
         "values substituted (kind 'built') and mutations of those (trailing/double/removed slashes, appended and "
@@ -50,7 +50,11 @@ LEVEL_TEXT = ("Coq proofs about an executable Gallina transcription of leptos_ro
               "over the implementation's own generate_routes() output) as oracle.")
 LEVEL_NOTE = ("Trusted: Coq kernel, ExtrOcamlBasic extraction + OCaml driver, the Rust harness. The plain statement "
               "'router matches iff a flat route matches' is refuted by the faithful model (witnesses proved by "
-              "vm_compute); the proved form excludes four decidable known classes (open findings F-C14-a..d). No axioms.")
+              "vm_compute); the proved form excludes four decidable known classes (open findings F-C14-a..d), of which "
+              "k_optional is coarse (any table with an OptionalParamSegment): optional segments are covered by the "
+              "faithful model + correspondence run, the partition theorem and the refutation witnesses, not by the iff "
+              "theorem. params_are_segments / first_flat_route_wins / build_then_match are stated without base path. "
+              "No axioms.")
 TECHNIQUE = "Coq proof (structural induction over nested segment tuples and route trees) + differential correspondence of the extracted model with the Rust code"
 
 # ---------------------------------------------------------------- case construction
@@ -704,8 +708,9 @@ def _generate(rng, tier):
     paths = [C.norm(p) for p in all_paths(plen)]
     fixed = [C.norm(t) for t in FIXED]
     # 1. fixed tables x every path up to the bound
+    longer = paths if quick else [C.norm(p) for p in all_paths(plen + 1)]
     for ti, routes in enumerate(fixed):
-        for p in paths:
+        for p in (longer if ti < 8 else paths):
             yield dict(case=[0, [], routes, p], kind="exhaustive")
     for routes in fixed[:6]:
         b = C.norm("/b")
